@@ -156,6 +156,15 @@ V("c15-rw-vertices-asarray-copy", "rewrite", "C15", P + "polygon.py", "        v
 V("c15-radius-refusal-form-nan", "fault", "C15", P + "circle.py",
   "        if value > 0:\n            self._radius = value\n        else:\n            raise ValueError(\"Radius must be greater than zero.\")",
   "        if value <= 0:\n            raise ValueError(\"Radius must be greater than zero.\")\n        self._radius = value", rule="CT-2")
+V("c15-is-simple-same-turn-fast-path", "fault", "C15", P + "polygon.py",
+  "    return len(poly_point_isect.isect_polygon(vertices)) == 0",
+  "    edges = np.roll(vertices, shift=-1, axis=0)[:, :2] - vertices[:, :2]\n    nxt = np.roll(edges, shift=-1, axis=0)\n    turns = edges[:, 0] * nxt[:, 1] - edges[:, 1] * nxt[:, 0]\n    if np.all(turns > 0) or np.all(turns < 0):\n        return True\n    return len(poly_point_isect.isect_polygon(vertices)) == 0", rule="CT-2")
+V("c15-rw-is-simple-early-reject", "rewrite", "C15", P + "polygon.py",
+  "    return len(poly_point_isect.isect_polygon(vertices)) == 0",
+  "    edges = np.roll(vertices, shift=-1, axis=0)[:, :2] - vertices[:, :2]\n    if not np.all(np.any(edges != 0, axis=1)):\n        return False\n    return len(poly_point_isect.isect_polygon(vertices)) == 0")
+V("c15-is-simple-triangle-shortcut", "fault", "C15", P + "polygon.py",
+  "    return len(poly_point_isect.isect_polygon(vertices)) == 0",
+  "    if len(vertices) == 3:\n        return True\n    return len(poly_point_isect.isect_polygon(vertices)) == 0", rule=None, allow_error=True)
 V("c15-asarray-center", "fault", "C15", P + "sphere.py", "self._centroid = np.array(value)", "self._centroid = np.asarray(value)", rule="CT-1")
 V("c15-store-vertices-asarray", "fault", "C15", P + "polyhedron.py",
   "self._vertices = np.array(vertices, dtype=np.float64)", "self._vertices = np.asarray(vertices, dtype=np.float64)", rule="CT-1")
